@@ -41,6 +41,7 @@ pub enum TK {
 }
 
 #[derive(Clone, Debug)]
+#[allow(dead_code)]
 pub struct Tok {
   pub kind: TK,
   pub text: String,
